@@ -112,6 +112,15 @@ def mutations(src):
            once(src, r, '''                self.backrefs.insert(group);
                 self.numeric_backrefs = true;
 ''', 'r'))
+    yield ('(s, control) optional_whitespace: the blank arm written with `continue` (`=> { ix += 1; continue; }`, same meaning)',
+           once(src, "b' ' | b'\\r' | b'\\n' | b'\\t' if self.flag(FLAG_IGNORE_SPACE) => ix += 1,",
+                "b' ' | b'\\r' | b'\\n' | b'\\t' if self.flag(FLAG_IGNORE_SPACE) => { ix += 1; continue; }", 's'))
+    yield ('(t, control) is_digit written as `b.is_ascii_digit()` (same meaning)',
+           once(src, "    b'0' <= b && b <= b'9'\n", "    b.is_ascii_digit()\n", 't'))
+    yield ('(u) parse_piece: `ix = next - 1;` -> `ix = next.saturating_sub(1);` (no panic any more)',
+           once(src, 'ix = next - 1;', 'ix = next.saturating_sub(1);', 'u'))
+    yield ('(v) parse_group: `depth >= MAX_RECURSION` -> `depth as u8 as usize >= MAX_RECURSION` (truncating cast)',
+           once(src, 'if depth >= MAX_RECURSION {', 'if depth as u8 as usize >= MAX_RECURSION {', 'v'))
 
 
 def locate(path, line):
